@@ -86,6 +86,60 @@ theorem uspsc_nextPow2_isNext (n : Nat) : IsNextPow2 n (Uspsc.nextPow2 n) := by
 theorem nextPow2W_eq_uspsc {w n : Nat} (hw : 1 ≤ w) (h : n ≤ 2 ^ (w - 1)) : nextPow2W w n = Uspsc.nextPow2 n :=
   isNextPow2_unique (nextPow2W_isNext hw h) (uspsc_nextPow2_isNext n)
 
+/-! ### equivalent spellings of the saturation test and the loop test -/
+
+/-- for an argument that is not a power of two, `while (result <= n)` and `while (result < n)` are the same loop: `result` is
+    a power of two (or 0 after a wrapped shift) and therefore never equals `n` -/
+theorem npLoopV_eq (w n : Nat) (hn : ¬ ∃ k, n = 2 ^ k) (le : Bool) :
+    ∀ (fuel r : Nat), ((r = 0 ∧ n ≠ 0) ∨ ∃ i, r = 2 ^ i) → npLoopV le w fuel r n = npLoop w fuel r n := by
+  intro fuel
+  induction fuel with
+  | zero => intro r _; rfl
+  | succ f ih =>
+    intro r hr
+    have hne : r ≠ n := by
+      rcases hr with ⟨h0, hn0⟩ | ⟨i, hi⟩
+      · omega
+      · intro h; exact hn ⟨i, h ▸ hi⟩
+    have htest : (if le then r ≤ n else r < n) ↔ r < n := by
+      cases le <;> simp <;> omega
+    simp only [npLoopV, npLoop]
+    by_cases hlt : r < n
+    · rw [if_pos (htest.mpr hlt), if_pos hlt]
+      apply ih
+      rcases hr with ⟨h0, hn0⟩ | ⟨i, hi⟩
+      · left; subst h0; exact ⟨by simp, hn0⟩
+      · subst hi
+        rw [Nat.shiftLeft_eq, Nat.pow_one, ← Nat.pow_succ]
+        by_cases hiw : i + 1 < w
+        · right; exact ⟨i + 1, Nat.mod_eq_of_lt (Nat.pow_lt_pow_right (by decide) hiw)⟩
+        · left
+          exact ⟨Nat.mod_eq_zero_of_dvd (Nat.pow_dvd_pow 2 (by omega)), Nat.ne_of_gt (Nat.lt_of_le_of_lt (Nat.zero_le _) hlt)⟩
+    · rw [if_neg (fun h => hlt (htest.mp h)), if_neg hlt]
+
+/-- **the spellings `n > max` / `n >= max` and `result <= n` / `result < n` give the same function** (the argument `max` is a
+    power of two and returns through the early exit; the loop only runs for non-powers) -/
+theorem nextPow2V_eq {w : Nat} (hw : 1 ≤ w) (strict le : Bool) (n : Nat) : nextPow2V strict le w n = nextPow2W w n := by
+  simp only [nextPow2V, nextPow2W]
+  by_cases hge : n ≥ maxPow2 w
+  · rw [if_pos hge]
+    cases strict
+    · simp only [Bool.false_eq_true, if_false, if_pos hge]
+    · simp only [if_true]
+      by_cases hgt : n > maxPow2 w
+      · rw [if_pos hgt]
+      · have heq : n = maxPow2 w := by omega
+        have hp : isPow2 n = true := (isPow2_iff n).mpr ⟨w - 1, by rw [heq, maxPow2_eq w hw]⟩
+        rw [if_neg hgt, if_pos hp, heq]
+  · have h1 : ¬ (if strict then n > maxPow2 w else n ≥ maxPow2 w) := by
+      cases strict <;> simp <;> omega
+    rw [if_neg h1, if_neg hge]
+    by_cases hp : isPow2 n = true
+    · rw [if_pos hp, if_pos hp]
+    · rw [if_neg hp, if_neg hp]
+      exact npLoopV_eq w n (fun h => hp ((isPow2_iff n).mpr h)) le w 1 (Or.inr ⟨0, rfl⟩)
+
+
 /-! ### signed `T` -/
 
 /-- a non-negative argument of a `w`-bit signed type is treated as an unsigned `(w-1)`-bit one -/
